@@ -70,7 +70,8 @@ func main() {
 			le = leans[i]
 		}
 		if gos[i] != le {
-			f := strings.Fields(l); rec := f[1] + ":" + f[3]
+			f := strings.Fields(l)
+			rec := f[1] + ":" + f[3]
 			k := fmt.Sprintf("go=%s | lean=%s", gos[i], le)
 			groups[k] = append(groups[k], rec)
 		}
